@@ -46,3 +46,16 @@ Definition reshare_step (cur : ginfo) (e : reshare_ev) : ginfo :=
   | ROutput g now => match validate_transition (Some cur) (Some g) now with VtOk => g | _ => cur end
   | RFailed => cur
   end.
+
+(* ---- a node that was NOT in the previous group and is in the new one (joinNetwork) ----
+   internal/core/drand_beacon.go joinNetwork: the output is stored, then the beacon is started:
+   from scratch (Handler.Start, which refuses once the genesis time has passed) only after an
+   INITIAL key generation (epoch 1); after any resharing the chain is already running and the
+   joiner starts in catch-up mode (Handler.Catchup: sync first, never refuses) -- whether or not
+   this node has ever completed a key generation before. *)
+Inductive start_mode := SmStart | SmCatchup.
+Definition join_mode (epoch : Z) : start_mode := if epoch =? 1 then SmStart else SmCatchup.
+(* does the beacon loop run after the output of epoch [epoch] was handed over at time [now]? *)
+Definition join_runs (epoch genesis now : Z) : bool :=
+  match join_mode epoch with SmStart => now <=? genesis | SmCatchup => true end.
+
